@@ -339,3 +339,16 @@ Proof.
   split; [|vm_compute; auto 10].
   intros p [<-|[<-|[]]]; simpl; split; try lia; repeat constructor; lia.
 Qed.
+
+(* Non-vacuity of the translation-tie theorems with hypotheses: a fresh tracker for three expected performs is running
+   (not done, not failed, total not reached), stays so after one increment, and the statistics hypotheses hold for the
+   data of C20_nonvacuous. *)
+Example C20_gen_nonvacuous :
+  let t := trk_step (trk_init 3) (MInc 1) in
+  k_done t = false /\ k_failed t = false /\ (k_total t <> 0 -> k_value t <> k_total t) /\
+  Forall (fun x => x < maxint) [3; 1; 4; 1] /\
+  decode_step (Some (mkPlan [] [] [])) (Some (mkEv 2 0 7)) = Some (mkPlan [] [mkEv 2 1 7] []).
+Proof.
+  cbv zeta. split; [reflexivity|]. split; [reflexivity|]. split; [cbn; discriminate|].
+  split; [repeat constructor|]. reflexivity.
+Qed.
